@@ -37,7 +37,9 @@ def rnd_history(rnd, nops):
         k = rnd.random()
         s = lambda: rnd.randint(1, 12)
         if k < 0.15 and nmaps < 4:
-            prog.append({"op": "create", "a": {"kind": rnd.choice(["owned", "owned", "owned", "owned_huge", "raw", "raw", "failed_build", "failed_wrap"])}})
+            # var: how a raw mapping is described to the builder (true flags / builder defaults / flags + backing file)
+            prog.append({"op": "create", "a": {"kind": rnd.choice(["owned", "owned", "owned", "owned_huge", "raw", "raw", "raw", "failed_build", "failed_wrap"]),
+                                               "var": rnd.randint(0, 2)}})
             nmaps += 1
         elif k < 0.27:
             n = rnd.choice([1, 2, 2, 3])
@@ -74,7 +76,8 @@ def dynamic(ctx):
     tests = edges_to_tests(inits, edges, 12000 if ctx.tier == "quick" else 150000, ctx.seed)
     prog = []
     for n, t in enumerate(tests):
-        prog += [{"op": s["op"], "a": s["a"]} for s in t["steps"]]
+        # (a raw mapping is described to the builder in one of three ways, rotating over the tests)
+        prog += [{"op": s["op"], "a": dict(s["a"], var=(n + i) % 3) if s["op"] == "create" else s["a"]} for i, s in enumerate(t["steps"])]
         # quiescence: drop every handle (in one of two orders) - everything owned must be gone, raw still mapped
         nsl = len(t["exp"][-1]["slots"])
         order = list(range(1, nsl + 1))
